@@ -16,6 +16,7 @@ mod c07;
 mod c08;
 mod c09;
 mod c10;
+mod c13;
 mod c16;
 mod c18;
 pub mod expand;
@@ -120,6 +121,7 @@ pub fn drive(prop: &str, tier: &str, seed: u64, outdir: &str) -> u64 {
         "C10" => c10::drive_sqrt(&mut tr, &mut rng, thorough),
         "C11" => c10::drive_cbrt(&mut tr, &mut rng, thorough),
         "C12" => c10::drive_inverse(&mut tr, &mut rng, thorough),
+        "C13" => c13::drive(&mut tr, &mut rng, thorough),
         "C16" => c16::drive(&mut tr, &mut rng, thorough),
         "C18" => c18::drive(&mut tr, &mut rng, thorough),
         _ => panic!("no driver for {}", prop),
